@@ -20,6 +20,7 @@ import (
 	"encoding/json"
 	"errors"
 	"fmt"
+	"math/big"
 	"os"
 	"path/filepath"
 	"sort"
@@ -110,6 +111,29 @@ func parse(data []byte) *pfile {
 		ct: dehex(k.Crypto.CipherText), iv: dehex(k.Crypto.CipherParams.IV),
 		salt: dehex(k.Crypto.KDFParams.Salt), mac: dehex(k.Crypto.MAC),
 		n: k.Crypto.KDFParams.N, r: k.Crypto.KDFParams.R, p: k.Crypto.KDFParams.P, dkl: k.Crypto.KDFParams.DKLen}
+}
+
+// coqScalar renders the scalar of a 32-byte key encoding as an N literal
+func coqScalar(b []byte) string { return new(big.Int).SetBytes(b).String() + "%N" }
+
+// boundary private keys (32-byte encodings): D = 1, D = 5, D = N-1 (secp256k1 group order - 1),
+// and scalars with exactly 1, 2 and 3 leading zero bytes
+func boundaryKeys(r *hx.Rand) [][]byte {
+	one := make([]byte, 32)
+	one[31] = 1
+	five := make([]byte, 32)
+	five[31] = 5
+	nm1, _ := hex.DecodeString("fffffffffffffffffffffffffffffffebaaedce6af48a03bbfd25e8cd0364140")
+	out := [][]byte{one, five, nm1}
+	for z := 1; z <= 3; z++ {
+		k := r.Bytes(32)
+		for i := 0; i < z; i++ {
+			k[i] = 0
+		}
+		k[z] |= 1
+		out = append(out, k)
+	}
+	return out
 }
 
 func coqHexf(h hexf) string {
@@ -509,6 +533,10 @@ func runFile(run *hx.Run, jc *jcase, next func(st *genState) *jop) {
 			}
 			op = &jc.Ops[i]
 		}
+		if op.Kind == "import" && op.Tag == "last-export" && op.Blob == "" && len(st.exports) > 0 {
+			x := st.exports[len(st.exports)-1] // fixed histories: import what the previous ExportKey returned
+			op.Blob, op.BlobValid, op.BlobPw, op.BlobKey = hx.Hex(x.blob), true, hx.Hex([]byte(x.pw)), hx.Hex(x.key)
+		}
 		name, pw := string(unhex(op.Name)), string(unhex(op.Pw))
 		path := filepath.Join(dir, name+".key")
 		slot, usable := slotOf(dir, name)
@@ -585,7 +613,7 @@ func runFile(run *hx.Run, jc *jcase, next func(st *genState) *jop) {
 				newkey = out.key
 				plains = append(plains, newkey)
 			}
-			coqOp = hx.CoqApp("OKey", hx.CoqBytes([]byte(name)), hx.CoqBytes([]byte(pw)), hx.CoqBytes(newkey), hx.CoqBytes(salt), hx.CoqBytes(iv))
+			coqOp = hx.CoqApp("OKey", hx.CoqBytes([]byte(name)), hx.CoqBytes([]byte(pw)), coqScalar(newkey), hx.CoqBytes(salt), hx.CoqBytes(iv))
 		case "exists":
 			coqOp = hx.CoqApp("OExists", hx.CoqBytes([]byte(name)))
 		case "export":
@@ -599,7 +627,7 @@ func runFile(run *hx.Run, jc *jcase, next func(st *genState) *jop) {
 			coqOp = hx.CoqApp("OImport", hx.CoqBytes([]byte(name)), hx.CoqBytes([]byte(pw)), coqFile(pj), hx.CoqBytes(salt), hx.CoqBytes(iv))
 		case "importpriv":
 			plains = append(plains, unhex(op.Priv))
-			coqOp = hx.CoqApp("OImportPriv", hx.CoqBytes([]byte(name)), hx.CoqBytes([]byte(pw)), hx.CoqBytes(unhex(op.Priv)), hx.CoqBytes(salt), hx.CoqBytes(iv))
+			coqOp = hx.CoqApp("OImportPriv", hx.CoqBytes([]byte(name)), hx.CoqBytes([]byte(pw)), coqScalar(unhex(op.Priv)), hx.CoqBytes(salt), hx.CoqBytes(iv))
 		}
 		if op.Kind != "exists" {
 			tab.collect([]byte(pw), blobs, plains)
@@ -832,9 +860,22 @@ func genOp(r *hx.Rand, st *genState) *jop {
 		op.Kind = "importpriv"
 		key := r.Bytes(32)
 		key[0] &= 0x7f // below the group order
+		if r.Chance(1, 2) { // boundary scalars: leading zero bytes, 1, N-1
+			bk := boundaryKeys(r)
+			key = bk[r.Intn(len(bk))]
+		}
 		op.Priv = hx.Hex(key)
+		op.Tag = fmt.Sprintf("priv-leading-zero-bytes=%d", leadingZeros(key))
 	}
 	return op
+}
+
+func leadingZeros(k []byte) int {
+	n := 0
+	for n < len(k) && k[n] == 0 {
+		n++
+	}
+	return n
 }
 
 // ---------------------------------------------------------------- mem store
@@ -1002,10 +1043,29 @@ func corpus(r *hx.Rand) []jcase {
 			{Kind: "importpriv", Name: hs(strings.Repeat("y", 237)), Pw: hs("p"), Priv: hx.Hex(key)},
 			{Kind: "import", Name: hs(strings.Repeat("y", 237)), Pw: hs("p"), Blob: hx.Hex(goodP), BlobValid: true, BlobPw: hs("p"), BlobKey: hx.Hex(key), Tag: "ok-n2"},
 			{Kind: "key", Name: hs(strings.Repeat("y", 236)), Pw: hs("p")}, {Kind: "key", Name: hs(strings.Repeat("y", 237)), Pw: hs("p")}}},
+		boundaryCase(r),
 		{Store: "mem", Ops: []jop{{Kind: "key", Name: hs("n"), Pw: hs("")}, {Kind: "key", Name: hs("n"), Pw: hs("\x00")},
 			{Kind: "key", Name: hs("n"), Pw: hs("")}, {Kind: "export", Name: hs("n"), Pw: hs("")}, {Kind: "import", Name: hs("n"), Pw: hs("")},
 			{Kind: "exists", Name: hs("n")}, {Kind: "exists", Name: hs("N")}}},
 	}
+}
+
+// every boundary scalar goes in through ImportPrivateKey and must come back unchanged through
+// Key, ExportKey + ImportKey into another slot, and Key there (C36-1: a variable-width
+// encoding loses keys whose scalar has leading zero bytes)
+func boundaryCase(r *hx.Rand) jcase {
+	jc := jcase{Store: "file", Ops: []jop{{Kind: "key", Name: hs("src"), Pw: hs("pw")}, {Kind: "key", Name: hs("dst"), Pw: hs("pw")}}}
+	for _, k := range boundaryKeys(r) {
+		tag := fmt.Sprintf("priv-leading-zero-bytes=%d", leadingZeros(k))
+		jc.Ops = append(jc.Ops,
+			jop{Kind: "importpriv", Name: hs("src"), Pw: hs("pw"), Priv: hx.Hex(k), Tag: tag},
+			jop{Kind: "key", Name: hs("src"), Pw: hs("pw")},
+			jop{Kind: "export", Name: hs("src"), Pw: hs("pw")},
+			jop{Kind: "import", Name: hs("dst"), Pw: hs("pw"), Tag: "last-export"},
+			jop{Kind: "key", Name: hs("dst"), Pw: hs("pw")},
+			jop{Kind: "key", Name: hs("dst"), Pw: hs("wrong")})
+	}
+	return jc
 }
 
 func main() {
